@@ -53,8 +53,8 @@ func evArgs(e string) []string {
 // Project reduces an output line to the observables a property talks about.
 func Project(prop string, line string) string {
 	if !strings.HasPrefix(line, "res=") {
-		if prop == "C05" || prop == "all" || prop == "C11" {
-			return line // includes topo
+		if prop == "C05" || prop == "all" || prop == "C11" || prop == "C06" || prop == "C13" {
+			return line // includes topo, subscription answers
 		}
 		return "cfg"
 	}
@@ -123,6 +123,10 @@ func Project(prop string, line string) string {
 		return "res=" + f["res"] + " act=" + f["act"] + " clk=" + f["clk"] + " ei=" + f["ei"] + crash + " " + sel("H", "MQ")
 	case "C14":
 		return sel("TI", "TS", "TF", "TE", "QE", "MQ") + crash
+	case "C06":
+		return "cl=" + f["cl"] + " xc=" + f["xc"] + " qt=" + f["qt"] + crash + " " + sel("W")
+	case "C13":
+		return "res=" + f["res"] + " act=" + f["act"] + " cl=" + f["cl"] + " xc=" + f["xc"] + crash
 	}
 	return line
 }
